@@ -270,7 +270,12 @@ func execE2E(op string, a []sx) sx {
 	recs := T("recs")
 	var kept []reflect.Value
 	var banks []*avro.ResourceBank
-	rerr := avro.ReadFile(bufio.NewReader(bytes.NewReader(file)), reflect.New(t).Interface(), func(val unsafe.Pointer, rb *avro.ResourceBank) error {
+	// the destination handed to ReadFile is a pointer to a struct that still holds an earlier record (half of the cases)
+	outp := reflect.New(t)
+	if len(file)%2 == 0 {
+		fillJunk(outp.Elem(), 0)
+	}
+	rerr := avro.ReadFile(bufio.NewReader(bytes.NewReader(file)), outp.Interface(), func(val unsafe.Pointer, rb *avro.ResourceBank) error {
 		cp := reflect.New(t)
 		cp.Elem().Set(reflect.NewAt(t, val).Elem())
 		kept = append(kept, cp)
